@@ -210,6 +210,22 @@ pub fn after_call(
             _ => {}
         }
     }
+    // with batching an append can also *become* entry-carrying inside the queue (entries merged
+    // into an entry-less commit announcement): count queue growth per destination as well
+    let drained = matches!(op, Op::Ready | Op::Advance | Op::AdvanceAppend);
+    if !drained && post.msgs_len >= pre.msgs_len {
+        for u in 1..16u64 {
+            let a = (pre.queued_appends >> (u * 4)) & 0xf;
+            let b = (post.queued_appends >> (u * 4)) & 0xf;
+            if b > a && b < 15 {
+                let e = new_app.entry(u).or_insert(0);
+                if ((b - a) as u32) > *e {
+                    m.stats.inc("c13.appends_made_entry_carrying_by_batching");
+                    *e = (b - a) as u32;
+                }
+            }
+        }
+    }
     let prs = raw.raft.prs();
     let mut seen = Vec::new();
     for (&u, pr) in prs.iter() {
